@@ -37,249 +37,7 @@ func (x *FnIndex) recognizerOf(v ssa.Value) ssa.Value {
 
 func runC10(c *Ctx) {
 	// ---- K1
-	var pipes []*ssa.Function
-	for _, f := range c.AllFns {
-		if f.Pkg == nil || f.Pkg.Pkg.Path() == pParser || f.Parent() != nil {
-			continue
-		}
-		has := false
-		eachInstr(f, func(in ssa.Instruction) {
-			if call, ok := in.(*ssa.Call); ok && calleeIs(call, pParser, "", "NewgengineLexer") {
-				has = true
-			}
-		})
-		if has {
-			pipes = append(pipes, f)
-		}
-	}
-	sort.Slice(pipes, func(i, j int) bool { return fnName(pipes[i]) < fnName(pipes[j]) })
-	for _, f := range pipes {
-		x := c.Index(f)
-		key := fnName(f)
-		var lexer, psr, listener, input *ssa.Call
-		var errLs []*ssa.Call
-		eachInstr(f, func(in ssa.Instruction) {
-			call, ok := in.(*ssa.Call)
-			if !ok {
-				return
-			}
-			switch {
-			case calleeIs(call, pParser, "", "NewgengineLexer"):
-				lexer = call
-			case calleeIs(call, pParser, "", "NewgengineParser"):
-				psr = call
-			case calleeIs(call, pIparser, "", "NewGengineParserListener"):
-				listener = call
-			case calleeIs(call, pIparser, "", "NewGengineErrorListener"):
-				errLs = append(errLs, call)
-			case call.Call.StaticCallee() != nil && call.Call.StaticCallee().Name() == "NewInputStream":
-				input = call
-			}
-		})
-		if lexer == nil || psr == nil || listener == nil || input == nil {
-			c.Check("K1-pipelines-agree", key+"#shape", false, f.Pos(), "compile pipeline without lexer, parser, listener or input stream")
-			continue
-		}
-		// whole text
-		_, isParam := x.Origin(input.Call.Args[0]).(*ssa.Parameter)
-		c.Check("K1-pipelines-agree", key+"#whole-text", isParam && x.Unwrap(lexer.Call.Args[0]) == ssa.Value(input), input.Pos(), "the lexer must read the complete text given to the entry point (positions are relative to it)")
-		// listeners attached
-		attached := map[string]*ssa.Call{}
-		eachInstr(f, func(in ssa.Instruction) {
-			call, ok := in.(*ssa.Call)
-			if !ok {
-				return
-			}
-			cal := call.Call.StaticCallee()
-			if cal == nil || cal.Name() != "AddErrorListener" || len(call.Call.Args) != 2 {
-				return
-			}
-			rec := x.recognizerOf(call.Call.Args[0])
-			arg := x.Origin(call.Call.Args[1])
-			if mi, ok := arg.(*ssa.MakeInterface); ok {
-				arg = x.Origin(mi.X)
-			}
-			el, _ := arg.(*ssa.Call)
-			if el == nil || !calleeIs(el, pIparser, "", "NewGengineErrorListener") {
-				return
-			}
-			if rec == ssa.Value(lexer) {
-				attached["lexer"] = el
-			}
-			if rec == ssa.Value(psr) {
-				attached["parser"] = el
-			}
-		})
-		// a later RemoveErrorListeners on the same recognizer would detach the collecting listener again
-		addCalls := map[string]ssa.Instruction{}
-		eachInstr(f, func(in ssa.Instruction) {
-			if call, ok := in.(*ssa.Call); ok && call.Call.StaticCallee() != nil && call.Call.StaticCallee().Name() == "AddErrorListener" && len(call.Call.Args) == 2 {
-				rec := x.recognizerOf(call.Call.Args[0])
-				if rec == ssa.Value(lexer) {
-					addCalls["lexer"] = in
-				}
-				if rec == ssa.Value(psr) {
-					addCalls["parser"] = in
-				}
-			}
-		})
-		eachInstr(f, func(in ssa.Instruction) {
-			call, ok := in.(*ssa.Call)
-			if !ok || call.Call.StaticCallee() == nil || call.Call.StaticCallee().Name() != "RemoveErrorListeners" {
-				return
-			}
-			rec := x.recognizerOf(call.Call.Args[0])
-			for which, r := range map[string]ssa.Value{"lexer": lexer, "parser": psr} {
-				if rec != r || addCalls[which] == nil {
-					continue
-				}
-				if _, after := pathExists(f, addCalls[which], func(i2 ssa.Instruction) bool { return i2 == in }, nil); after {
-					attached[which] = nil
-					c.Check("K1-pipelines-agree", key+"#"+which+"-listener-removed", false, in.Pos(), "RemoveErrorListeners on the %s runs after the collecting error listener was attached: its errors are no longer seen", which)
-				}
-			}
-		})
-		c.Check("K1-pipelines-agree", key+"#lexer-listener", attached["lexer"] != nil, lexer.Pos(), "a GengineErrorListener must be attached to the lexer (token recognition errors)")
-		c.Check("K1-pipelines-agree", key+"#parser-listener", attached["parser"] != nil && attached["parser"] != attached["lexer"], psr.Pos(), "a separate GengineErrorListener must be attached to the parser")
-		// walk with the listener over psr.Primary()
-		walked := false
-		var walkCall, primaryCall *ssa.Call
-		eachInstr(f, func(in ssa.Instruction) {
-			if pc, ok := in.(*ssa.Call); ok && calleeIs(pc, pParser, "gengineParser", "Primary") && primaryCall == nil {
-				primaryCall = pc
-			}
-		})
-		eachInstr(f, func(in ssa.Instruction) {
-			call, ok := in.(*ssa.Call)
-			if !ok || call.Call.StaticCallee() == nil || call.Call.StaticCallee().Name() != "Walk" {
-				return
-			}
-			okL, okT := false, false
-			for _, a := range call.Call.Args {
-				o := x.Unwrap(a)
-				if o == ssa.Value(listener) {
-					okL = true
-				}
-				if pc, ok := o.(*ssa.Call); ok && calleeIs(pc, pParser, "gengineParser", "Primary") && x.Origin(pc.Call.Args[0]) == ssa.Value(psr) {
-					okT = true
-				}
-			}
-			if okL && okT {
-				walked = true
-				walkCall = call
-			}
-			for _, a := range call.Call.Args {
-				if pc, ok := x.Unwrap(a).(*ssa.Call); ok && calleeIs(pc, pParser, "gengineParser", "Primary") {
-					primaryCall = pc
-				}
-			}
-		})
-		c.Check("K1-pipelines-agree", key+"#walk", walked, psr.Pos(), "the tree of psr.Primary() must be walked with the GengineParserListener")
-		c.Check("K1-pipelines-agree", key+"#fresh-container", x.freshKc(listener.Call.Args[0]), listener.Pos(), "the listener must fill a fresh KnowledgeContext")
-		// the three checks dominate every successful return
-		type chk struct {
-			name  string
-			obj   ssa.Value
-			field string
-			typ   string
-		}
-		checks := []chk{
-			{"lexer-errors-checked", attached["lexer"], "GrammarErrors", "GengineErrorListener"},
-			{"parser-errors-checked", attached["parser"], "GrammarErrors", "GengineErrorListener"},
-			{"listener-errors-checked", listener, "ParseErrors", "GengineParserListener"},
-		}
-		for _, ch := range checks {
-			if ch.obj == nil {
-				c.Check("K1-pipelines-agree", key+"#"+ch.name, false, f.Pos(), "nothing to check: the listener is missing")
-				continue
-			}
-			ok := true
-			staleAny := false
-			var badPos = f.Pos()
-			nSucc := 0
-			eachInstr(f, func(in ssa.Instruction) {
-				r, isR := in.(*ssa.Return)
-				if !isR || r.Block() == f.Recover {
-					return
-				}
-				last := r.Results[len(r.Results)-1]
-				succ := false
-				for _, pv := range x.PossibleValues(last) {
-					if pv.V == nil || isConstNil(pv.V) {
-						succ = true
-					}
-				}
-				if !succ {
-					return
-				}
-				nSucc++
-				known := false
-				stale := false
-				for _, g := range x.GuardsOf(r.Block()) {
-					if arg, ne, isLen := x.lenCmpO(g.Cond); isLen && ne != g.Pol {
-						if b, is := x.isFieldLoad(arg, ch.typ, ch.field); is && x.Origin(b) == ch.obj {
-							// the errors must be looked at after they can have been recorded: lexer and
-							// parser errors after the parse (Primary), listener errors after the walk
-							producer := primaryCall
-							if ch.name == "listener-errors-checked" {
-								producer = walkCall
-							}
-							if producer != nil && domInstr(producer, g.If) {
-								known = true
-							} else {
-								stale = true
-							}
-						}
-					}
-				}
-				if !known {
-					ok = false
-					badPos = r.Pos()
-					if stale {
-						staleAny = true
-					}
-				}
-			})
-			why := ""
-			if staleAny {
-				why = " (the list is tested before the step that fills it has run)"
-			}
-			c.Check("K1-pipelines-agree", key+"#"+ch.name, ok && nSucc > 0, badPos, "a successful return must be dominated by `len(%s.%s) > 0 -> error`, tested after the errors can have been recorded%s", ch.typ, ch.field, why)
-			// the true edge of that test returns an error
-			eachInstr(f, func(in ssa.Instruction) {
-				iff, isIf := in.(*ssa.If)
-				if !isIf {
-					return
-				}
-				arg, ne, isLen := x.lenCmpO(iff.Cond)
-				if !isLen {
-					return
-				}
-				b, is := x.isFieldLoad(arg, ch.typ, ch.field)
-				if !is || x.Origin(b) != ch.obj {
-					return
-				}
-				edge := 0
-				if !ne {
-					edge = 1
-				}
-				_, bad := pathFrom(iff.Block().Succs[edge].Instrs[0], func(i2 ssa.Instruction) bool {
-					r, isR := i2.(*ssa.Return)
-					if !isR {
-						return false
-					}
-					for _, pv := range x.PossibleValues(r.Results[len(r.Results)-1]) {
-						if pv.V == nil || !isNewError(pv.V) {
-							return true
-						}
-					}
-					return false
-				}, nil)
-				c.Check("K1-pipelines-agree", key+"#"+ch.name+"/rejects", !bad, iff.Pos(), "recorded errors must make the compile fail")
-			})
-		}
-	}
-	c.Check("K1-pipelines-agree", "pipelines", len(pipes) == 3, 0, "%d functions set up a lexer/parser pipeline (the three confirmed siblings: BuildRuleFromString, BuildRuleWithIncremental, getKc)", len(pipes))
+	pipes := c.rulePipelines("K1-pipelines-agree")
 	c.Min("K1-pipelines-agree", 30)
 	// entry points reach a pipeline
 	isPipe := map[*ssa.Function]bool{}
@@ -1062,4 +820,253 @@ func describeCut(x *FnIndex, lo, hi ssa.Value, isSlice bool) string {
 		return "[" + d(lo) + ":" + d(hi) + "]"
 	}
 	return "[" + d(lo) + "]"
+}
+
+// rulePipelines: the compile pipelines (lexer, parser, listener) are set up and checked alike.
+func (c *Ctx) rulePipelines(rule string) []*ssa.Function {
+	// ---- K1
+	var pipes []*ssa.Function
+	for _, f := range c.AllFns {
+		if f.Pkg == nil || f.Pkg.Pkg.Path() == pParser || f.Parent() != nil {
+			continue
+		}
+		has := false
+		eachInstr(f, func(in ssa.Instruction) {
+			if call, ok := in.(*ssa.Call); ok && calleeIs(call, pParser, "", "NewgengineLexer") {
+				has = true
+			}
+		})
+		if has {
+			pipes = append(pipes, f)
+		}
+	}
+	sort.Slice(pipes, func(i, j int) bool { return fnName(pipes[i]) < fnName(pipes[j]) })
+	for _, f := range pipes {
+		x := c.Index(f)
+		key := fnName(f)
+		var lexer, psr, listener, input *ssa.Call
+		var errLs []*ssa.Call
+		eachInstr(f, func(in ssa.Instruction) {
+			call, ok := in.(*ssa.Call)
+			if !ok {
+				return
+			}
+			switch {
+			case calleeIs(call, pParser, "", "NewgengineLexer"):
+				lexer = call
+			case calleeIs(call, pParser, "", "NewgengineParser"):
+				psr = call
+			case calleeIs(call, pIparser, "", "NewGengineParserListener"):
+				listener = call
+			case calleeIs(call, pIparser, "", "NewGengineErrorListener"):
+				errLs = append(errLs, call)
+			case call.Call.StaticCallee() != nil && call.Call.StaticCallee().Name() == "NewInputStream":
+				input = call
+			}
+		})
+		if lexer == nil || psr == nil || listener == nil || input == nil {
+			c.Check(rule, key+"#shape", false, f.Pos(), "compile pipeline without lexer, parser, listener or input stream")
+			continue
+		}
+		// whole text
+		_, isParam := x.Origin(input.Call.Args[0]).(*ssa.Parameter)
+		c.Check(rule, key+"#whole-text", isParam && x.Unwrap(lexer.Call.Args[0]) == ssa.Value(input), input.Pos(), "the lexer must read the complete text given to the entry point (positions are relative to it)")
+		// listeners attached
+		attached := map[string]*ssa.Call{}
+		eachInstr(f, func(in ssa.Instruction) {
+			call, ok := in.(*ssa.Call)
+			if !ok {
+				return
+			}
+			cal := call.Call.StaticCallee()
+			if cal == nil || cal.Name() != "AddErrorListener" || len(call.Call.Args) != 2 {
+				return
+			}
+			rec := x.recognizerOf(call.Call.Args[0])
+			arg := x.Origin(call.Call.Args[1])
+			if mi, ok := arg.(*ssa.MakeInterface); ok {
+				arg = x.Origin(mi.X)
+			}
+			el, _ := arg.(*ssa.Call)
+			if el == nil || !calleeIs(el, pIparser, "", "NewGengineErrorListener") {
+				return
+			}
+			if rec == ssa.Value(lexer) {
+				attached["lexer"] = el
+			}
+			if rec == ssa.Value(psr) {
+				attached["parser"] = el
+			}
+		})
+		// a later RemoveErrorListeners on the same recognizer would detach the collecting listener again
+		addCalls := map[string]ssa.Instruction{}
+		eachInstr(f, func(in ssa.Instruction) {
+			if call, ok := in.(*ssa.Call); ok && call.Call.StaticCallee() != nil && call.Call.StaticCallee().Name() == "AddErrorListener" && len(call.Call.Args) == 2 {
+				rec := x.recognizerOf(call.Call.Args[0])
+				if rec == ssa.Value(lexer) {
+					addCalls["lexer"] = in
+				}
+				if rec == ssa.Value(psr) {
+					addCalls["parser"] = in
+				}
+			}
+		})
+		eachInstr(f, func(in ssa.Instruction) {
+			call, ok := in.(*ssa.Call)
+			if !ok || call.Call.StaticCallee() == nil || call.Call.StaticCallee().Name() != "RemoveErrorListeners" {
+				return
+			}
+			rec := x.recognizerOf(call.Call.Args[0])
+			for which, r := range map[string]ssa.Value{"lexer": lexer, "parser": psr} {
+				if rec != r || addCalls[which] == nil {
+					continue
+				}
+				if _, after := pathExists(f, addCalls[which], func(i2 ssa.Instruction) bool { return i2 == in }, nil); after {
+					attached[which] = nil
+					c.Check(rule, key+"#"+which+"-listener-removed", false, in.Pos(), "RemoveErrorListeners on the %s runs after the collecting error listener was attached: its errors are no longer seen", which)
+				}
+			}
+		})
+		c.Check(rule, key+"#lexer-listener", attached["lexer"] != nil, lexer.Pos(), "a GengineErrorListener must be attached to the lexer (token recognition errors)")
+		c.Check(rule, key+"#parser-listener", attached["parser"] != nil && attached["parser"] != attached["lexer"], psr.Pos(), "a separate GengineErrorListener must be attached to the parser")
+		// walk with the listener over psr.Primary()
+		walked := false
+		var walkCall, primaryCall *ssa.Call
+		eachInstr(f, func(in ssa.Instruction) {
+			if pc, ok := in.(*ssa.Call); ok && calleeIs(pc, pParser, "gengineParser", "Primary") && primaryCall == nil {
+				primaryCall = pc
+			}
+		})
+		eachInstr(f, func(in ssa.Instruction) {
+			call, ok := in.(*ssa.Call)
+			if !ok || call.Call.StaticCallee() == nil || call.Call.StaticCallee().Name() != "Walk" {
+				return
+			}
+			okL, okT := false, false
+			for _, a := range call.Call.Args {
+				o := x.Unwrap(a)
+				if o == ssa.Value(listener) {
+					okL = true
+				}
+				if pc, ok := o.(*ssa.Call); ok && calleeIs(pc, pParser, "gengineParser", "Primary") && x.Origin(pc.Call.Args[0]) == ssa.Value(psr) {
+					okT = true
+				}
+			}
+			if okL && okT {
+				walked = true
+				walkCall = call
+			}
+			for _, a := range call.Call.Args {
+				if pc, ok := x.Unwrap(a).(*ssa.Call); ok && calleeIs(pc, pParser, "gengineParser", "Primary") {
+					primaryCall = pc
+				}
+			}
+		})
+		c.Check(rule, key+"#walk", walked, psr.Pos(), "the tree of psr.Primary() must be walked with the GengineParserListener")
+		c.Check(rule, key+"#fresh-container", x.freshKc(listener.Call.Args[0]), listener.Pos(), "the listener must fill a fresh KnowledgeContext")
+		// the three checks dominate every successful return
+		type chk struct {
+			name  string
+			obj   ssa.Value
+			field string
+			typ   string
+		}
+		checks := []chk{
+			{"lexer-errors-checked", attached["lexer"], "GrammarErrors", "GengineErrorListener"},
+			{"parser-errors-checked", attached["parser"], "GrammarErrors", "GengineErrorListener"},
+			{"listener-errors-checked", listener, "ParseErrors", "GengineParserListener"},
+		}
+		for _, ch := range checks {
+			if ch.obj == nil {
+				c.Check(rule, key+"#"+ch.name, false, f.Pos(), "nothing to check: the listener is missing")
+				continue
+			}
+			ok := true
+			staleAny := false
+			var badPos = f.Pos()
+			nSucc := 0
+			eachInstr(f, func(in ssa.Instruction) {
+				r, isR := in.(*ssa.Return)
+				if !isR || r.Block() == f.Recover {
+					return
+				}
+				last := r.Results[len(r.Results)-1]
+				succ := false
+				for _, pv := range x.PossibleValues(last) {
+					if pv.V == nil || isConstNil(pv.V) {
+						succ = true
+					}
+				}
+				if !succ {
+					return
+				}
+				nSucc++
+				known := false
+				stale := false
+				for _, g := range x.GuardsOf(r.Block()) {
+					if arg, ne, isLen := x.lenCmpO(g.Cond); isLen && ne != g.Pol {
+						if b, is := x.isFieldLoad(arg, ch.typ, ch.field); is && x.Origin(b) == ch.obj {
+							// the errors must be looked at after they can have been recorded: lexer and
+							// parser errors after the parse (Primary), listener errors after the walk
+							producer := primaryCall
+							if ch.name == "listener-errors-checked" {
+								producer = walkCall
+							}
+							if producer != nil && domInstr(producer, g.If) {
+								known = true
+							} else {
+								stale = true
+							}
+						}
+					}
+				}
+				if !known {
+					ok = false
+					badPos = r.Pos()
+					if stale {
+						staleAny = true
+					}
+				}
+			})
+			why := ""
+			if staleAny {
+				why = " (the list is tested before the step that fills it has run)"
+			}
+			c.Check(rule, key+"#"+ch.name, ok && nSucc > 0, badPos, "a successful return must be dominated by `len(%s.%s) > 0 -> error`, tested after the errors can have been recorded%s", ch.typ, ch.field, why)
+			// the true edge of that test returns an error
+			eachInstr(f, func(in ssa.Instruction) {
+				iff, isIf := in.(*ssa.If)
+				if !isIf {
+					return
+				}
+				arg, ne, isLen := x.lenCmpO(iff.Cond)
+				if !isLen {
+					return
+				}
+				b, is := x.isFieldLoad(arg, ch.typ, ch.field)
+				if !is || x.Origin(b) != ch.obj {
+					return
+				}
+				edge := 0
+				if !ne {
+					edge = 1
+				}
+				_, bad := pathFrom(iff.Block().Succs[edge].Instrs[0], func(i2 ssa.Instruction) bool {
+					r, isR := i2.(*ssa.Return)
+					if !isR {
+						return false
+					}
+					for _, pv := range x.PossibleValues(r.Results[len(r.Results)-1]) {
+						if pv.V == nil || !isNewError(pv.V) {
+							return true
+						}
+					}
+					return false
+				}, nil)
+				c.Check(rule, key+"#"+ch.name+"/rejects", !bad, iff.Pos(), "recorded errors must make the compile fail")
+			})
+		}
+	}
+	c.Check(rule, "pipelines", len(pipes) == 3, 0, "%d functions set up a lexer/parser pipeline (the three confirmed siblings: BuildRuleFromString, BuildRuleWithIncremental, getKc)", len(pipes))
+	return pipes
 }
